@@ -72,7 +72,7 @@ class Checker:
     def expect(self, src, want, what):
         self.n += 1
         got = expr_outcome(self.it, src)
-        if got != want:
+        if not absval.strict_eq(got, want):       # (a plain != cannot tell TRUE from 1)
             self.run.violation(src, f"{what}: expected {want!r} got {got!r}",
                                {"kind": "expr", "src": src, "want": want, "what": what})
         return got
